@@ -1,4 +1,211 @@
+/-
+C08 — Service: each request gets exactly one outcome; contexts follow their schedule.
+
+(a) `Prop` statements used by `Props/C08.lean` (request outcome automaton);
+(b) the executable monitor evaluated on the implementation's observation stream.
+
+Known defect class decided exactly:
+  F-svc-3  a batch that was due is not issued because `FilterServiceProviders` found no exchange
+           rate: the handler returns before deleting the queue entry and the context is stuck.
+-/
 import Irismod.Model.Service
 
 namespace Irismod.Spec.C08
+open Irismod Irismod.Sdk Irismod.Service
+
+/-! ### the outcome of a request, read off a state -/
+
+inductive Outcome where
+  | unknown      -- never issued (or already cleaned up)
+  | active
+  | answered
+  deriving DecidableEq, Repr, Inhabited
+
+/-- a request is active iff its marker is set; answered iff a response is recorded -/
+def outcomeOf (s : State) (rid : ReqId) : Outcome :=
+  if s.active.contains rid then .active
+  else if AMap.contains s.resps rid then .answered
+  else .unknown
+
+/-! ### monitor -/
+
+structure Fail where
+  clause : String
+  cls    : String := ""
+  deriving Repr, Inhabited
+
+structure Mon where
+  answered    : List ReqId := []
+  expired     : List ReqId := []
+  seen        : List ReqId := []
+  lastBatchH  : AMap CtxId Int := []
+  modified    : List CtxId := []
+  pausedSince : List CtxId := []
+  deriving Repr, Inhabited
+
+def left (pre post : State) : List ReqId := pre.active.filter (fun r => !(post.active.contains r))
+def entered (pre post : State) : List ReqId := post.active.filter (fun r => !(pre.active.contains r))
+
+def newResponses (pre post : State) : List ReqId :=
+  (post.resps.map (·.1)).filter (fun r => !(AMap.contains pre.resps r))
+
+def expHOf (s : State) (r : ReqId) : Option Int := (AMap.get? s.reqs r).map (·.expH)
+
+/-- batch counters of all contexts present on both sides are equal -/
+def countersSame (pre post : State) : Bool :=
+  pre.ctxs.all fun e => match AMap.get? post.ctxs e.1 with
+    | none => true
+    | some c => c.batchCounter == e.2.batchCounter
+
+/-- number of responses with an output recorded for batch `(id, b)` in either state -/
+def outputsOf (pre post : State) (id : CtxId) (b : Nat) : Nat :=
+  let ks := ((pre.resps ++ post.resps).filter (fun e => e.1.inBatch id b && e.2.hasOut)).map (·.1)
+  ks.eraseDups.length
+
+def respEvents (s : State) : List (CtxId × Nat × Bool) :=
+  s.cb.filterMap fun e => match e with
+    | .resp id _ n er => some (id, n, er)
+    | .state _ _ => none
+
+def stateEvents (s : State) : List CtxId :=
+  s.cb.filterMap fun e => match e with
+    | .resp _ _ _ _ => none
+    | .state id _ => some id
+
+def sortIds (l : List CtxId) : List CtxId := isort (fun a b : String => decide (a ≤ b)) l
+
+def evLe (a b : CtxId × Nat × Bool) : Bool := decide (a.1 < b.1) || (a.1 == b.1 && decide (a.2.1 ≤ b.2.1))
+
+/-- the running batch of `c` (stored under `id` before the step) is over after the step -/
+def batchDone (post : State) (id : CtxId) (c : Ctx) : Bool :=
+  match AMap.get? post.ctxs id with
+  | none => true
+  | some c' => c'.batchState = .completed || decide (c.batchCounter < c'.batchCounter)
+
+/-- the batches of module-owned contexts that complete in this step, with the expected callback payload -/
+def expectedRespEvents (pre post : State) : List (CtxId × Nat × Bool) :=
+  pre.ctxs.filterMap fun e =>
+    let c := e.2
+    if c.moduleName ≠ "" ∧ c.batchState = .running then
+      if batchDone post e.1 c then
+        let n := outputsOf pre post e.1 c.batchCounter
+        some (e.1, n, decide (n < c.batchRespThreshold))
+      else none
+    else none
+
+def expectedStateEvents (pre post : State) : List CtxId :=
+  pre.ctxs.filterMap fun e =>
+    if e.2.moduleName ≠ "" ∧ e.2.state = .running then
+      match AMap.get? post.ctxs e.1 with
+      | some c' => if c'.state = .paused then some e.1 else none
+      | none => none
+    else none
+
+/-- callbacks fire exactly once per completed batch of a module-owned context, with `err` iff the
+number of outputs is below the batch's response threshold; the state callback fires exactly when
+a module-owned context is paused by the scheduler -/
+def callbacksOk (pre post : State) (isNext : Bool) : Bool :=
+  isort evLe (respEvents post) == isort evLe (expectedRespEvents pre post) &&
+  sortIds (stateEvents post) == (if isNext then sortIds (expectedStateEvents pre post) else [])
+
+/-- does the model's `FilterServiceProviders` fail (no exchange rate) for context `id` once the expired
+batches of this block are processed?  (class predicate of F-svc-3, evaluated on the implementation's pre-state) -/
+def rateErrorAt (pre : State) (id : CtxId) : Bool :=
+  let s1 := expiredPhase pre
+  let rc := getCtx s1 id
+  rc.state = .running && (filterProviders s1 rc rc.providers [] []).isNone
+
+def authorityOk (pre : State) (sender : Addr) (id : String) (viaMsg : Bool) : Bool :=
+  match AMap.get? pre.ctxs id.toLower with
+  | none => false
+  | some c => if viaMsg then c.consumer == sender && c.moduleName == "" else (c.moduleName == "" || c.consumer == sender)
+
+def issuedMon (mm : Mon) (id : CtxId) (h : Int) : Mon :=
+  { mm with lastBatchH := AMap.set mm.lastBatchH id h, pausedSince := mm.pausedSince.filter (· ≠ id) }
+
+/-- the schedule clauses of one `EndBlocker` at height `h = pre.height` -/
+def checkSchedule (m : Mon) (pre post : State) : Mon × List Fail :=
+  let h := pre.height
+  pre.ctxs.foldl (fun (acc : Mon × List Fail) (e : CtxId × Ctx) =>
+    let id := e.1
+    let c := e.2
+    let mm := acc.1
+    let cq := AMap.get? post.ctxs id
+    let issued : Bool := match cq with | some c' => c'.batchCounter == c.batchCounter + 1 | none => false
+    let counterOk : Bool := match cq with | some c' => c'.batchCounter == c.batchCounter || issued | none => true
+    let clean := !(mm.modified.contains id) && !(mm.pausedSince.contains id)
+    let last := AMap.get? mm.lastBatchH id
+    let f1 := if counterOk then [] else [{ clause := "batch-counter-step" : Fail }]
+    let f2 := if issued ∧ c.state ≠ .running then [{ clause := "batch-only-while-running" : Fail }] else []
+    let f3 := if issued ∧ c.repeated ∧ clean ∧ 1 ≤ c.batchCounter ∧ last ≠ some (h - (c.freq : Int))
+              then [{ clause := "batch-exactly-frequency-after-previous" : Fail }] else []
+    let f4 := if issued ∧ c.repeated ∧ !(mm.modified.contains id) ∧ (0 : Int) ≤ c.total ∧ c.total ≤ (c.batchCounter : Int)
+              then [{ clause := "batch-beyond-total" : Fail }] else []
+    let f5 := if issued ∧ !c.repeated ∧ 1 ≤ c.batchCounter then [{ clause := "one-shot-second-batch" : Fail }] else []
+    let due := c.repeated && c.state = .running && clean && decide (1 ≤ c.batchCounter) &&
+               (decide (c.total < (0 : Int)) || decide ((c.batchCounter : Int) < c.total)) && last == some (h - (c.freq : Int))
+    let pausedNow : Bool := match cq with | some c' => c'.state = .paused | none => false
+    let f6 := if due ∧ !issued ∧ !pausedNow then
+                [({ clause := "batch-due-not-issued", cls := (if rateErrorAt pre id then "F-svc-3" else "") } : Fail)] else []
+    -- a one-shot context is removed when its batch expires
+    let f7 := if !c.repeated ∧ AMap.get? pre.expH id = some h ∧ cq.isSome then [{ clause := "one-shot-removed-at-expiry" : Fail }] else []
+    let mm1 : Mon := if issued then issuedMon mm id h else mm
+    let mm2 : Mon := if pausedNow ∧ !(mm1.pausedSince.contains id) then { mm1 with pausedSince := id :: mm1.pausedSince } else mm1
+    (mm2, acc.2 ++ f1 ++ f2 ++ f3 ++ f4 ++ f5 ++ f6 ++ f7)) (m, [])
+
+/-- one monitor step -/
+def check (m : Mon) (pre : State) (op : Op) (accepted : Bool) (post : State) : Mon × List Fail :=
+  let lft := left pre post
+  let ent := entered pre post
+  let newR := newResponses pre post
+  let isNext := match op with | .next _ => accepted | _ => false
+  -- (outcome automaton)
+  let (m1, f1) : Mon × List Fail :=
+    match op, accepted with
+    | .respond provider (some rid) _ _ _, true =>
+      let ok := pre.active.contains rid && ((AMap.get? pre.reqs rid).map (·.provider)) == some provider &&
+                lft == [rid] && ent.isEmpty && newR == [rid] &&
+                ((AMap.get? post.resps rid).map (·.provider)) == some provider &&
+                !(m.answered.contains rid) && !(m.expired.contains rid)
+      ({ m with answered := rid :: m.answered }, if ok then [] else [{ clause := "answered-once-by-addressee-while-active" }])
+    | .next _, true =>
+      let expOk := pre.active.all fun r => (lft.contains r) == (expHOf pre r == some pre.height)
+      let entOk := ent.all fun r => decide (r.h = pre.height) && !(m.seen.contains r) && (AMap.contains post.reqs r)
+      let fresh := lft.all fun r => !(m.answered.contains r) && !(m.expired.contains r)
+      ({ m with expired := lft ++ m.expired },
+       (if expOk then [] else [{ clause := "expired-exactly-at-expiration-height" : Fail }]) ++
+       (if entOk then [] else [{ clause := "request-issued-once" : Fail }]) ++
+       (if fresh ∧ newR.isEmpty then [] else [{ clause := "one-outcome-per-request" : Fail }]))
+    | .skip _ _, true => (m, [{ clause := "multi-block-step-not-monitorable" }])
+    | _, _ =>
+      (m, if lft.isEmpty ∧ ent.isEmpty ∧ newR.isEmpty then [] else [{ clause := "outcome-only-by-answer-or-expiry" }])
+  let m2 := { m1 with seen := ent ++ m1.seen }
+  -- (authority)
+  let f2 : List Fail :=
+    if !accepted then [] else
+    match op with
+    | .pause c id | .start c id | .kill c id | .updateCtx c id _ _ _ _ _ =>
+      if authorityOk pre c id true then [] else [{ clause := "only-consumer-controls-context" }]
+    | .mpause c id | .mstart c id | .mkill c id | .mupdate c id _ _ _ _ _ _ =>
+      if authorityOk pre c id false then [] else [{ clause := "only-consumer-controls-context" }]
+    | _ => []
+  -- (schedule)
+  let (m3, f3) : Mon × List Fail :=
+    if isNext then checkSchedule m2 pre post
+    else
+      let mm : Mon := match op, accepted with
+        | .updateCtx _ id _ _ _ _ _, true | .mupdate _ id _ _ _ _ _ _, true =>
+          { m2 with modified := id.toLower :: m2.modified }
+        | .pause _ id, true | .mpause _ id, true => { m2 with pausedSince := id.toLower :: m2.pausedSince }
+        | _, _ => m2
+      (mm, if countersSame pre post then [] else [{ clause := "batch-only-in-end-block" }])
+  -- contexts created paused count as "paused since"
+  let m4 : Mon := match op, accepted with
+    | .mcall .., true =>
+      { m3 with pausedSince := ((post.ctxs.filter (fun e => !(AMap.contains pre.ctxs e.1) && e.2.state = .paused)).map (·.1)) ++ m3.pausedSince }
+    | _, _ => m3
+  -- (callbacks)
+  let f4 := if callbacksOk pre post isNext then [] else [{ clause := "callback-once-per-batch" : Fail }]
+  (m4, f1 ++ f2 ++ f3 ++ f4)
+
 end Irismod.Spec.C08
